@@ -16,7 +16,7 @@ META = {
     'rule': "configurations = class naming (none / rename / in_rename / two in_renames / out_rename / in+out, over the five styles: 26) x "
             "field naming (none / rename / aliases / in_names / out_name and combinations: 10) x allow_extra x in_format "
             "{struct, tuple, struct+tuple} x kw-only placement, on a class with one required and one defaulted multi-word field; "
-            "data = mappings over ALL key subsets of size <= 2 (thorough <= 3) of the candidate-name universe (Python names, aliases, "
+            "data = mappings over ALL ordered key pairs and all key triples (in both orders; quick: triples over a reduced universe) of the candidate-name universe (Python names, aliases, "
             "explicit in_names, field rename, the five styled forms of both fields, out_name, an unknown key - so every duplicate pair "
             "occurs), each with valid and ill-kinded values; real sequences (list and tuple) of every length 0..max+1; str / bytes / "
             "bytearray of fitting length; oracle = reference model (names computed from the user's configuration per docs): accept "
@@ -68,8 +68,10 @@ def family(name):
 
 def data_for(spec, tier):
     uni = universe(spec)
-    sets = [()] + [(a,) for a in uni] + list(itertools.combinations(uni, 2))
-    sets += list(itertools.combinations(uni if tier == 'thorough' else REDUCED, 3))
+    # mappings are ordered: which of two names of one field comes first matters to a duplicate check, so all ORDERED pairs
+    sets = [()] + [(a,) for a in uni] + list(itertools.permutations(uni, 2))
+    tri = list(itertools.combinations(uni if tier == 'thorough' else REDUCED, 3))
+    sets += tri + [tuple(reversed(x)) for x in tri]
     seen = set()
     for ks in sets:
         if ks in seen:
